@@ -88,6 +88,15 @@ def _one(ctx, prog, ann, modname, scratch, calls, materialise, rng, disable_inli
         w = why(ln)
         if any(getattr(n, "decorator_list", None) for n in inner):
             return "goal-in-decorated-function"
+        if w == "no_cover-name":
+            # a scope named in no_cover that is defined inside a control-flow statement (not directly in its parent's body)
+            parents = {}
+            for par in _ast.walk(_tree):
+                for ch in _ast.iter_child_nodes(par):
+                    parents[ch] = par
+            for n in inner:
+                if isinstance(n, (_ast.FunctionDef, _ast.AsyncFunctionDef, _ast.ClassDef)) and not isinstance(parents.get(n), (_ast.Module, _ast.FunctionDef, _ast.AsyncFunctionDef, _ast.ClassDef)):
+                    return "no_cover-name:scope-defined-inside-control-flow-statement"
         if w == "marker-on-else":
             # 'else:' + a body that is a single if-statement has the same AST as 'elif'
             for n in _ast.walk(_tree):
